@@ -120,12 +120,38 @@ func refScaleCentre(vals []rv) {
 // refIncrement runs the spec's ProposerSelection: scale and centre once, then `times` rounds
 // of "add power, elect the highest priority, move it back by the total". It returns the new
 // set and the proposer of every round.
+//
+// The specification defines one run of ProposerSelection (scale, centre, elect) and says the
+// procedure "runs with the same validator set at each round": refIncrement performs `times`
+// complete runs. refIncrementScaleOnce (scale and centre only before the first election) exists
+// only to classify a difference.
 func refIncrement(r refSet, times int) (refSet, [][]byte) {
+	return refInc(r, times, true)
+}
+
+func refIncrementScaleOnce(r refSet, times int) (refSet, [][]byte) {
+	return refInc(r, times, false)
+}
+
+func bigMulSub(a, b, c, d int64) *big.Int {
+	x := new(big.Int).Mul(big.NewInt(a), big.NewInt(b))
+	return x.Sub(x, new(big.Int).Mul(big.NewInt(c), big.NewInt(d)))
+}
+
+func bigMulAdd(a, b, c int64) *big.Int {
+	x := new(big.Int).Mul(big.NewInt(a), big.NewInt(b))
+	return x.Add(x, big.NewInt(c))
+}
+
+func refInc(r refSet, times int, everyRun bool) (refSet, [][]byte) {
 	out := r.copy()
 	refScaleCentre(out.vals)
 	p := out.total()
 	var props [][]byte
 	for t := 0; t < times; t++ {
+		if everyRun && t > 0 {
+			refScaleCentre(out.vals)
+		}
 		for i := range out.vals {
 			out.vals[i].prio.Add(out.vals[i].prio, out.vals[i].power)
 		}
